@@ -36,3 +36,10 @@ claim("C10", "other", "typestate dataflow (cursor validation), store classificat
       "resulting sequences or cycles are the documented ones, Stack behaviour beyond Each, or termination of ring walks.",
       BASE_NOTE + " Assumes iteration callbacks do not mutate the container.",
       "DESIGN.md section 3, C10")
+claim("C17", "other", "provenance of slice expressions (3-index clip rule), non-zero divisor analysis with branch facts and predicate summaries, dominance guard, exchange pairing",
+      "Decides structural clauses of the property: every subslice of the input handed out by Partition/Chunks/Batches is capacity-clipped (Max == High); no integer division or "
+      "remainder in package slice can have a zero divisor (this is the 'never panics for an allowed argument' clause for the arithmetic faults; it found Batches(empty, n>0), "
+      "repaired in /repo 2160ede); At/PtrAt index only under a successful strict range check; Partition writes its input only by exchange, so it stays a permutation. "
+      "Does NOT decide which elements end up where (Partition order, Rotate's permutation, chunk/batch lengths, Head/Tail/Stripe contents).",
+      BASE_NOTE,
+      "DESIGN.md section 3, C17")
